@@ -494,7 +494,7 @@ def hist_case(rep, NP, MAXR, NSTEPS, FIRST, CRASH, prefix, shrink=False):
         bad = []
         if r['status'] == 'ok':
             bad = judge_stats(r, NP)
-            bad += [b for b in c09.hist_judge(r, NP, MAXR, NSTEPS, FIRST, CRASH, shrink=opts) if b[0] == 'stats-recomputed-filter']
+            bad += [b for b in c09.hist_judge(r, NP, MAXR, NSTEPS, FIRST, CRASH, shrink=opts) if b[0] in ('stats-recomputed-filter', 'restart-counter')]  # (restart-counter: the count every record is keyed with is the step's true one)
         return dict(status=r['status'], bad=bad, log=[(l[0], l[1], l[5], l[6]) for l in r['log']], used=c.pos)
 
     try:
